@@ -468,9 +468,20 @@ def r6_registration(rep, ctx, RID="C12.R6"):
                 asserts.append(a)
     rep.floor(RID, "default-value assertions", len(asserts), 2)
     # (1) no re-definition of the asserted variables between an assertion and the construction
+    stored_t = {k_: res.term(v_) for k_, v_ in kw.items() if k_ in VARS}
     for a in asserts:
         after = cfg.reach(cfg.node_of(a))
         redefs = [st for v in VARS for st in defs[v] if cfg.node_of(st) in after and C in cfg.reach(cfg.node_of(st))]
+        if redefs:
+            # a re-definition that only hands the asserted values on (the result variable of an extracted phase is
+            # copied back into the argument's name): the asserted default is one of the values that are stored, and the
+            # limit it was compared with is the limit that is stored
+            at_ = res.term(a.test)
+            lk = _limit_kind(at_[2][1])
+            same_default = "default_value" in stored_t and all(x in alternatives(stored_t["default_value"]) for x in alternatives(at_[2][0]))
+            same_limit = lk is not None and stored_t.get("%s_value" % lk) == at_[2][1]
+            if same_default and same_limit:
+                redefs = []
         rep.check(not redefs, RID, "AddCategory:final-values:%s" % norm(ast.unparse(a.test)), "the assertion sees the values that are stored (no later re-definition)",
                   "after `assert %s` the variable(s) %s are re-defined (line %s) before the category is built: the stored default/limits were never checked against each other"
                   % (ast.unparse(a.test), sorted({t.id for st in redefs for t in ast.walk(st) if isinstance(t, ast.Name) and isinstance(t.ctx, ast.Store) and t.id in VARS}), sorted(st.lineno for st in redefs)), node=a, fn=fn)
